@@ -28,6 +28,20 @@ type ClassModel struct {
 
 	// methodList - stores all available methods definition of class
 	methodList map[string]*Function
+
+	// module - the module whose code defines this type (nil for native types)
+	module *r.Module
+}
+
+// SetModule - bind the type to the module that defines it: the methods of its objects run
+// there, whether or not the caller can see the type's name
+func (cm *ClassModel) SetModule(module *r.Module) *ClassModel {
+	cm.module = module
+	return cm
+}
+
+func (cm *ClassModel) GetModule() *r.Module {
+	return cm.module
 }
 
 // NewClassModel - create new empty r.ClassRef
